@@ -83,11 +83,12 @@ C18_join(m, t, o) == o.op = "Join" =>
   IF o.seat # -1
   THEN IF o.seat \notin SeatIds(m) \/ m.seat[o.seat].player # NULL
        THEN o.res \notin {"", "PANIC"} /\ SameSeats(m, t)
-       ELSE o.res = "" /\ o.got = o.seat /\ t.seat[o.seat].player = o.p /\ t.seat[o.seat].reserved /\ OnlySeatChanged(m, t, o.seat)
+       ELSE o.res = "" /\ o.got = o.seat /\ t.seat[o.seat].player = o.p /\ ~Playable(t, o.seat) /\ OnlySeatChanged(m, t, o.seat)
   ELSE IF FreeSeats(m) = {}
        THEN o.res = "ErrNoAvailableSeat" /\ SameSeats(m, t)
-       ELSE o.res = "" /\ o.got \in FreeSeats(m) /\ t.seat[o.got].player = o.p /\ t.seat[o.got].reserved /\ OnlySeatChanged(m, t, o.got)
-\* a player who has merely joined is held out of play until they sit in
+       ELSE o.res = "" /\ o.got \in FreeSeats(m) /\ t.seat[o.got].player = o.p /\ ~Playable(t, o.got) /\ OnlySeatChanged(m, t, o.got)
+\* a player who has merely joined is held out of play until they sit in (HOW - the code reserves the seat - is not
+\* prescribed: C18.join asks for 'not playable' right after the join, C18.heldOut for no position on a merely joined player)
 C18_heldOut(t, o) == NextOK(o) => \A s \in {t.dealer, t.sb, t.bb} \cap SeatIds(t) : ~t.seat[s].reserved /\ t.seat[s].player # NULL
 C18_leave(m, t, o) == o.op = "Leave" =>
   IF o.seat \in SeatIds(m) /\ m.seat[o.seat].player # NULL
@@ -113,7 +114,7 @@ ConcBad(pre, calls, post, flags) ==
      (IF \A k \in K : calls[k].res # "PANIC" THEN {} ELSE {"C18.noPanic"}) \cup
      (IF /\ \A a, b \in ok : a # b => calls[a].got # calls[b].got
          /\ \A k \in ok : calls[k].got \in SeatIds(pre) /\ pre.seat[calls[k].got].player = NULL
-                           /\ post.seat[calls[k].got].player = calls[k].p /\ post.seat[calls[k].got].reserved
+                           /\ post.seat[calls[k].got].player = calls[k].p /\ ~Playable(post, calls[k].got)
                            /\ (calls[k].seat # -1 => calls[k].got = calls[k].seat)
                            /\ (calls[k].seat = -1 => calls[k].got \in FreeSeats(pre))
       THEN {} ELSE {"C18.conc.oneSeatOnePlayer"}) \cup
